@@ -281,7 +281,7 @@ PROPS = {
               "the scheduler's hand-offs are hidden from the detector. Oracles: no race report in mtail code; counter totals equal the increments "
               "the lines call for; exported monotone series stay within [0, final] and never decrease between successive exports; every exported sample of the scalar "
               "counter and of the line-number gauge is checked against the step-stamped history of the lines (a counter value may not exceed the number of "
-              "increments begun when the scrape ended; a gauge value must be one a line begun by then wrote) — the statement's 'a value that existed at some point'; no panic, no "
+              "increments begun when the scrape ended; a gauge value must be one a line begun by then wrote) — the statement's 'a value that existed at some point'; in every Prometheus, graphite and JSON export the parts of each histogram agree (+Inf bucket / sum of bins = count, cumulative buckets never decrease); no panic, no "
               "deadlock. Non-trivial: at least one exporter ran and GC or a reload was active; distinct = distinct (configuration, schedule signature)."),
         assumptions=["race detection is go's -race (happens-before) with the simulator's own synchronisation made invisible through runtime.RaceDisable; reports whose innermost non-library frame on either side is harness or simulator code are ignored",
                      "exports-reflect-existing-values is read literally: stale values are allowed (an export cache would be legitimate), values from the future or never written are not; labelled series and histograms keep the range/monotonicity check; porcupine is not used because no search is needed with one writer",
